@@ -72,14 +72,59 @@ CntPOK(in, o) ==
           /\ o.res[j] = CountPrefixesD(kb, q[1], q[2], q[3])
 TraceCntP == IsEvent("cntp") /\ CntPOK(Ev.in, Ev.out)
 
+\* Key sets of 10^5 and more keys, given by a pattern instead of a list: key i (0-based) is the 4-byte big-endian
+\* number (i \div 13) * 32768 + PatT[i % 13]: strictly ascending, neighbours differ in bits 17..31 depending on i mod 13,
+\* and 13 does not divide 2^16, so ranges 65536 keys apart look different.  FirstDiffBits is judged at sampled pairs, CountPrefixes (several
+\* calls in a row on ONE SigBits object) on short ranges anywhere in the set; both depend on the keys of the
+\* pair / range only, so the definitions are evaluated on those.
+PatT == <<0, 1, 2, 4, 5, 64, 65, 1024, 1025, 4096, 8192, 8193, 16384>>
+PatKey(i, stride) == LET v == ((i \div 13) * stride) + PatT[(i % 13) + 1] IN << v \div 16777216, (v \div 65536) % 256, (v \div 256) % 256, v % 256 >>
+FDBBigOK(in, o) ==
+    /\ in.n >= 2 /\ in.stride = 32768 /\ o.n = in.n - 1
+    /\ Len(o.fd) = Len(in.idxs)
+    /\ \A j \in DOMAIN in.idxs :
+          LET p == in.idxs[j] IN
+          /\ 0 <= p /\ p < in.n - 1
+          /\ o.fd[j] = FirstDiffBitD(PatKey(p, in.stride), PatKey(p + 1, in.stride))
+TraceFDBBig == IsEvent("fdbbig") /\ FDBBigOK(Ev.in, Ev.out)
+CntPBigOK(in, o) ==
+    /\ in.n >= 2 /\ in.stride = 32768 /\ Len(o.res) = Len(in.queries)
+    /\ \A j \in DOMAIN in.queries :
+          LET q == in.queries[j]
+              sub == [t \in 1..(q[2] - q[1]) |-> PatKey(q[1] + t - 1, in.stride)] IN
+          /\ 0 <= q[1] /\ q[2] - q[1] >= 2 /\ q[2] <= in.n /\ q[3] >= 1
+          /\ o.res[j] = CountPrefixesD(KeyBitSeqs(sub), 0, q[2] - q[1], q[3])
+TraceCntPBig == IsEvent("cntpbig") /\ CntPBigOK(Ev.in, Ev.out)
+
 \* ---- C17
 ShardEvOK(in, o) ==
     /\ Len(in.keys) >= 1 /\ StrictlyAscending(in.keys) /\ in.maxSize >= 1
     /\ ShardOK(in.keys, in.maxSize, o.L, o.B)
 TraceShard == IsEvent("shard") /\ ShardEvOK(Ev.in, Ev.out)
 
+\* ShardByPrefix on a pattern key set (PatKey) of 10^5 and more keys: the whole boundary list is too long to log,
+\* so the driver reports its length, its first and last entry and, for every key index in in.at plus a seeded
+\* sample, the shard holding that key as <<j, B[j], B[j+1], L[j], L[j+1] or -1>> (j 1-based).  Every reported shard
+\* must satisfy the conjuncts of Strs!ShardOK that concern it; the keys are sorted, so the common prefix of a shard
+\* is that of its first and last key.
+ShardBigOK(in, o) ==
+    LET key(i) == PatKey(i, in.stride)                         \* 0-based
+        holds(sh, at) == sh[2] <= at /\ at < sh[3] IN
+    /\ in.n >= 1 /\ in.stride = 32768 /\ in.maxSize >= 1
+    /\ o.nb >= 2 /\ o.nl = o.nb - 1 /\ o.b1 = 0 /\ o.blast = in.n
+    /\ \A a \in DOMAIN in.at : \E k \in DOMAIN o.shards : holds(o.shards[k], in.at[a])
+    /\ \A k \in DOMAIN o.shards :
+          LET sh == o.shards[k]  j == sh[1]  s == sh[2]  e == sh[3] IN
+          /\ 1 <= j /\ j <= o.nl /\ 0 <= s /\ s < e /\ e <= in.n
+          /\ (j = 1 <=> s = 0) /\ (j = o.nl <=> e = in.n)
+          /\ e - s <= in.maxSize
+          /\ sh[4] = LCP2(key(s), key(e - 1))
+          /\ (j < o.nl => /\ sh[5] >= 0 /\ sh[5] <= 4
+                          /\ LexCmp(Take(key(s), sh[4]), Take(key(e), sh[5])) = -1)
+TraceShardBig == IsEvent("shardbig") /\ ShardBigOK(Ev.in, Ev.out)
+
 TraceInit == l = 1
 TraceNext == TraceBW \/ TraceBWToStr \/ TraceBWFD \/ TraceBWStrs \/ TraceBSCmp \/ TraceBSUpto
-             \/ TraceFDB \/ TraceCntP \/ TraceShard
+             \/ TraceFDB \/ TraceCntP \/ TraceFDBBig \/ TraceCntPBig \/ TraceShard \/ TraceShardBig
 TraceSpec == TraceInit /\ [][TraceNext]_l
 ==========================================================================
